@@ -65,6 +65,17 @@ pub fn drive_c03_vectors(vectors: &str, w: &mut NdWriter) -> usize {
       w.put(&r);
       n += 1;
     }
+    // every third pair once more with the pattern left inside a context and selected by kind (`x = [..]`, selector
+    // array): a contextual pattern obeys the chosen strictness like any other - also when it is written as the pattern
+    // object of a rule (the `yaml` verdict of the record)
+    if i % 3 == 0 {
+      let context = format!("x = {pat}");
+      if let Some(r) = mrec::match_record_sel(&format!("c03v{i}sel"), l, &context, Some(("array", 4)), &arr,
+                                              json!({"mode": "near", "cs": cs, "gs": gs, "src": src})) {
+        w.put(&r);
+        n += 1;
+      }
+    }
   }
   n
 }
